@@ -26,6 +26,16 @@ func (v *legacyVisitor) Visit(tree antlr.ParseTree) any {
 	return tree.Accept(v)
 }
 
+// visits an operand of an operator - function calls can be migrated to operator expressions which need to keep their grouping
+func (v *legacyVisitor) visitOperand(tree antlr.ParseTree) string {
+	operand := v.Visit(tree).(string)
+
+	if _, isCall := tree.(*gen.FunctionCallContext); isCall {
+		return asOperand(operand)
+	}
+	return operand
+}
+
 // VisitParse handles our top level parser
 func (v *legacyVisitor) VisitParse(ctx *gen.ParseContext) any {
 	return v.Visit(ctx.Expression())
@@ -76,29 +86,29 @@ func (v *legacyVisitor) VisitParentheses(ctx *gen.ParenthesesContext) any {
 
 // VisitNegation deals with negations such as -5
 func (v *legacyVisitor) VisitNegation(ctx *gen.NegationContext) any {
-	return fmt.Sprintf("-%s", v.Visit(ctx.Expression()))
+	return fmt.Sprintf("-%s", v.visitOperand(ctx.Expression()))
 }
 
 // VisitExponentExpression deals with exponenets such as 5^5
 func (v *legacyVisitor) VisitExponentExpression(ctx *gen.ExponentExpressionContext) any {
-	arg1 := v.Visit(ctx.Expression(0))
-	arg2 := v.Visit(ctx.Expression(1))
+	arg1 := v.visitOperand(ctx.Expression(0))
+	arg2 := v.visitOperand(ctx.Expression(1))
 
 	return fmt.Sprintf("%s ^ %s", arg1, arg2)
 }
 
 // VisitConcatenation deals with string concatenations like "foo" & "bar"
 func (v *legacyVisitor) VisitConcatenation(ctx *gen.ConcatenationContext) any {
-	arg1 := v.Visit(ctx.Expression(0))
-	arg2 := v.Visit(ctx.Expression(1))
+	arg1 := v.visitOperand(ctx.Expression(0))
+	arg2 := v.visitOperand(ctx.Expression(1))
 
 	return fmt.Sprintf("%s & %s", arg1, arg2)
 }
 
 // VisitAdditionOrSubtractionExpression deals with addition and subtraction like 5+5 and 5-3
 func (v *legacyVisitor) VisitAdditionOrSubtractionExpression(ctx *gen.AdditionOrSubtractionExpressionContext) any {
-	arg1 := v.Visit(ctx.Expression(0)).(string)
-	arg2 := v.Visit(ctx.Expression(1)).(string)
+	arg1 := v.visitOperand(ctx.Expression(0))
+	arg2 := v.visitOperand(ctx.Expression(1))
 
 	op := "+"
 	if ctx.MINUS() != nil {
@@ -122,6 +132,10 @@ func (v *legacyVisitor) VisitAdditionOrSubtractionExpression(ctx *gen.AdditionOr
 			template = `datetime_add(%s, -%s, "D")`
 		}
 
+		if op == "-" {
+			arg2 = asOperand(arg2)
+		}
+
 		return fmt.Sprintf(template, arg1, arg2)
 
 	} else if arg1Type == "date" && arg2Type == "number" {
@@ -133,6 +147,9 @@ func (v *legacyVisitor) VisitAdditionOrSubtractionExpression(ctx *gen.AdditionOr
 
 		if !v.options.RawDates {
 			template = wrap(template, "format_date")
+		}
+		if op == "-" {
+			arg2 = asOperand(arg2)
 		}
 
 		return fmt.Sprintf(template, arg1, arg2)
@@ -158,13 +175,13 @@ func (v *legacyVisitor) VisitAdditionOrSubtractionExpression(ctx *gen.AdditionOr
 	if op == "+" {
 		return fmt.Sprintf("legacy_add(%s, %s)", arg1, arg2)
 	}
-	return fmt.Sprintf("legacy_add(%s, -%s)", arg1, arg2)
+	return fmt.Sprintf("legacy_add(%s, -%s)", arg1, asOperand(arg2))
 }
 
 // VisitEquality deals with equality or inequality tests 5 = 5 and 5 != 5
 func (v *legacyVisitor) VisitEqualityExpression(ctx *gen.EqualityExpressionContext) any {
-	arg1 := v.Visit(ctx.Expression(0))
-	arg2 := v.Visit(ctx.Expression(1))
+	arg1 := v.visitOperand(ctx.Expression(0))
+	arg2 := v.visitOperand(ctx.Expression(1))
 
 	if ctx.EQ() != nil {
 		return fmt.Sprintf("%s = %s", arg1, arg2)
@@ -175,8 +192,8 @@ func (v *legacyVisitor) VisitEqualityExpression(ctx *gen.EqualityExpressionConte
 
 // VisitMultiplicationOrDivision deals with division and multiplication such as 5*5 or 5/2
 func (v *legacyVisitor) VisitMultiplicationOrDivisionExpression(ctx *gen.MultiplicationOrDivisionExpressionContext) any {
-	arg1 := v.Visit(ctx.Expression(0))
-	arg2 := v.Visit(ctx.Expression(1))
+	arg1 := v.visitOperand(ctx.Expression(0))
+	arg2 := v.visitOperand(ctx.Expression(1))
 
 	if ctx.TIMES() != nil {
 		return fmt.Sprintf("%s * %s", arg1, arg2)
@@ -187,8 +204,8 @@ func (v *legacyVisitor) VisitMultiplicationOrDivisionExpression(ctx *gen.Multipl
 
 // VisitComparison deals with visiting a comparison between two values, such as 5<3 or 3>5
 func (v *legacyVisitor) VisitComparisonExpression(ctx *gen.ComparisonExpressionContext) any {
-	arg1 := v.Visit(ctx.Expression(0))
-	arg2 := v.Visit(ctx.Expression(1))
+	arg1 := v.visitOperand(ctx.Expression(0))
+	arg2 := v.visitOperand(ctx.Expression(1))
 
 	return fmt.Sprintf("%s %s %s", arg1, ctx.GetOp().GetText(), arg2)
 }
